@@ -53,6 +53,14 @@ def make_posthoc(machine, rng):
                 out.append(2 * e - 1)
                 if pts:
                     out.append(e / 2 + rng.choice(pts) ** 2)
+        # constraints written after the solve (none of them was sent: they are clearly off at the instance, on either side):
+        # "the value of a constraint" is the value of the expression it compares with zero, whatever its sense
+        base = [o for o in out if isinstance(o, Expression)]
+        for _ in range(4):
+            if base:
+                e = rng.choice(base)
+                c = rng.choice([2.0, -2.0, 0.5, 7.0])
+                out.append(rng.choice([lambda: e == c, lambda: e <= c, lambda: e >= c, lambda: c == e])())
         return out
     return build
 
